@@ -39,10 +39,10 @@ FUNCTIONS = ['codegen_outerexp/outersin/outercos/outertan', 'codegen_sqrt', 'Mul
 ASSUMPTIONS = ['coefficients are reals', 'float constants in generated code (1/k! as 0.1666...) snapped to rationals within 1e-12 relative',
                'sqrt: Study number with positive scalar part, radicands non-negative; divisions: denominators non-zero',
                'exp: cosh, sinh, cos, sinc are uninterpreted functions (no transcendental theory): branch selection, arguments and blade placement are proved, the power-series identity is trusted']
-BOUNDS = {'quick': 'all (p,q,r) d<=3 and selected d=4; outer series on scalar-free patterns (grade unions, random sparse, dense bivector d<=4); sqrt on scalar+blade and scalar+bivectors(3-D); exp on every single-blade pattern and 2-blade commuting patterns; concrete norms (python and numpy reals, both signs of normsq); exp with ndarray coefficients (0-d, 1 and 3 entries)',
+BOUNDS = {'quick': 'all (p,q,r) d<=3 and selected d=4; outer series on scalar-free patterns (grade unions, random sparse, dense bivector d<=4); sqrt on scalar+blade and scalar+bivectors(3-D); exp on every single-blade pattern and 2-blade commuting patterns; concrete norms (python and numpy reals, both signs of normsq); exp with ndarray coefficients (0-d, 1 and 3 entries; entry-wise against the float exp: mixed-sign / zero entries, 2-D, integer arrays, sign-changing vectors, 2-blades of array vectors)',
           'thorough': 'all (p,q,r) d<=4, d=5,6 sparse'}
 OUTSIDE = ['cosh/sinh/cos/sinc = their power series', 'complex coefficients / negative a^2 - B^2', 'outertan of dense operands in d >= 5', 'outerexp of operands WITH scalar part (kingdon truncates and warns)',
-           'exp() on numpy-array coefficients beyond the concrete shapes sampled by the exp-ndarray kind (one coefficient; 0-d, 1 and 3 entries)']
+           'exp() on numpy-array coefficients beyond the concrete arrays sampled by the exp-ndarray kinds (sampling, not a solver claim); complex and object arrays']
 OPTS = {'rlimit': 300_000_000, 'canary_every': 10, 'max_paths': 64, 'case_budget_s': 120}
 CHUNKS_PER_WORKER = 10
 
@@ -85,6 +85,7 @@ def cases(tier, seed):
             out.append(dict(kind='exp-sympy-assumptions', cfg=cfg, ka=[k]))
             out.append(dict(kind='exp-numpy-scalars', cfg=cfg, ka=[k]))
             out.append(dict(kind='exp-ndarray', cfg=cfg, ka=[k]))
+            out.append(dict(kind='exp-ndarray-elementwise', cfg=cfg, ka=[k]))
         # exp of python-float 2-blades a ^ b (they square to a scalar only up to rounding residue) against the power series
         if d >= 3:
             out.append(dict(kind='exp-float-blade', cfg=cfg))
@@ -123,6 +124,8 @@ def run_case(desc, V):
         return _run_norm_concrete(desc, V)
     if kind == 'exp-float-blade':
         return _run_exp_float_blade(desc)
+    if kind == 'exp-ndarray-elementwise':
+        return _run_exp_ndarray_elementwise(desc)
     alg = get_alg(desc['cfg'])
     km = kmap(alg)
     x = mv(alg, V, 'x', desc['ka'])
@@ -246,6 +249,73 @@ def _run_exp_float_blade(desc):
         for k_ in set(series) | set(got):
             if not concrete_equal(complex(got.get(k_, 0)), complex(series.get(k_, 0)), tol=1e-8):
                 claims.append(Fail(f'exp-float-blade[{trial},{k_}]', f'exp(a ^ b) has {got.get(k_, 0)!r} on blade {k_}, the power series {series.get(k_, 0)!r}', fkey=fkey))
+                break
+    return claims
+
+
+def _run_exp_ndarray_elementwise(desc):
+    """concrete arrays (sampling, stated as such): exp() of a simple element whose coefficients are numpy arrays equals, element by
+    element, exp() of the element with that entry as python floats (which the exp / exp-float-blade kinds tie to the power series).
+    Subjects: one blade with entries of both signs and zeros, 2-D arrays, integer arrays; a vector a e_i + b e_j whose square changes
+    sign along the array (mixed signatures); 2-blades u ^ v of array-valued vectors; an array next to a plain number."""
+    import numpy as np
+    from ..core import concrete_equal
+    alg = get_alg(desc['cfg'])
+    d = alg.d
+    order = list(alg.canon2bin.values())
+    vec = [k for k in order if bin(k).count('1') == 1]
+    rng = np.random.default_rng(d * 131 + alg.q * 11 + alg.r)
+    claims = [Note('nontrivial', ''), Eq('reached', 1, 1)]
+    subjects = []
+    blade = desc['ka'][0]
+    subjects.append(('one-blade-mixed-entries', (blade,), [np.array([0.5, -1.5, 0.0, 2.0])]))
+    subjects.append(('one-blade-2d', (blade,), [np.array([[0.1, 0.2, 0.0], [-0.3, 0.4, 1.0]])]))
+    subjects.append(('one-blade-int', (blade,), [np.array([1, 0, -2])]))
+    if len(vec) >= 2:
+        i, j = vec[0], vec[-1]
+        subjects.append(('vector-sign-changes', (i, j), [np.array([2.0, 1.0, 1.0, 0.0]), np.array([1.0, 2.0, 1.0, 0.0])]))
+        subjects.append(('array-next-to-number', (i, j), [np.array([2.0, 0.5, 0.0]), 1.0]))
+    if d >= 3:
+        u = alg.multivector(keys=tuple(vec), values=list(np.round(rng.uniform(-1.5, 1.5, size=(len(vec), 4)), 3)))
+        v = alg.multivector(keys=tuple(vec), values=list(np.round(rng.uniform(-1.5, 1.5, size=(len(vec), 4)), 3)))
+        B = u ^ v
+        if len(B.keys()):
+            subjects.append(('2-blade-of-array-vectors', tuple(B.keys()), list(B.values())))
+    for tag, keys, vals in subjects:
+        fkey = f'exp|ndarray|elementwise|{tag}'
+        x = alg.multivector(keys=keys, values=vals)
+        shape = np.broadcast_shapes(*[np.shape(v) for v in vals])
+        try:
+            got = coeffs(x.exp())
+        except NotImplementedError:
+            # not simple for some entry: then no entry-wise exp is demanded, but every entry-wise operand must refuse as well
+            simple = []
+            for idx in np.ndindex(*shape):
+                xi = alg.multivector(keys=keys, values=[float(np.broadcast_to(np.asarray(v), shape)[idx]) for v in vals])
+                try:
+                    xi.exp(); simple.append(True)
+                except NotImplementedError:
+                    simple.append(False)
+            if all(simple):
+                claims.append(Fail(f'exp-ndarray-{tag}:refused', f'exp() refuses the array-valued element {tag} as not simple although every entry is', fkey=fkey + '|raises'))
+            continue
+        except Exception as e:  # noqa
+            claims.append(Fail(f'exp-ndarray-{tag}:raises', f'exp() of the array-valued element {tag} raised {type(e).__name__}: {str(e)[:100]}', fkey=fkey + '|raises'))
+            continue
+        for idx in np.ndindex(*shape):
+            xi = alg.multivector(keys=keys, values=[float(np.broadcast_to(np.asarray(v), shape)[idx]) for v in vals])
+            try:
+                want = coeffs(xi.exp())
+            except Exception:  # noqa
+                continue
+            bad = None
+            for k_ in set(want) | set(got):
+                g = np.broadcast_to(np.asarray(got.get(k_, 0)), shape)[idx]
+                if not concrete_equal(complex(g), complex(want.get(k_, 0)), tol=1e-8):
+                    bad = (k_, g, want.get(k_, 0))
+                    break
+            if bad:
+                claims.append(Fail(f'exp-ndarray-{tag}{list(idx)}', f'exp() of the array-valued element {tag}: entry {idx} has {bad[1]!r} on blade {bad[0]}, exp() of that entry alone has {bad[2]!r}', fkey=fkey))
                 break
     return claims
 
